@@ -11,7 +11,7 @@ for id in $seeds; do
   git -C "$scratch" apply "/verif/seeded/$id/patch.diff" || { echo "$id PATCH-DOES-NOT-APPLY" | tee -a "$out"; git -C /repo worktree remove --force "$scratch"; continue; }
   line="$id:"
   for p in C01 C02 C03 C04 C05 C06 C07 C08 C09 C10 C11 C12 C13 C14 C16 C17 C18 C19; do
-    VERIF_REPO="$scratch" ./check $p > /verif/build/cross-$id-$p.log 2>&1; rc=$?
+    VERIF_EVIDENCE_DIR=/verif/build/cross-evidence VERIF_REPO="$scratch" ./check $p > /verif/build/cross-$id-$p.log 2>&1; rc=$?
     [ $rc -ne 0 ] && line="$line $p=$rc"
   done
   echo "$line" | tee -a "$out"
